@@ -60,7 +60,7 @@ def run(prop, tier, seed, replay=None):
             else:
                 tie_notes.append({"build": bname, "obligation": TIE_A_TEXT[prop], "lean": g_out[-600:],
                                   "extractor_notes": obs.get("notes"),
-                                  "rows": {k: obs[k] for k in ("builtin", "inplace") if prop == "C04"} if prop == "C04" else
+                                  "rows": {k: obs[k] for k in ("builtin", "inplace", "propagate") if prop == "C04"} if prop == "C04" else
                                           ({"deps": [r for r in obs["deps"] if not (r[2] and r[3])]} if prop == "C05" else
                                            {"reduce": [r for r in obs["reduce"] if not all(r[1:])]})})
 
